@@ -1,15 +1,526 @@
 package main
 
-import "golang.org/x/tools/go/ssa"
+// Native side: the same harness source compiled by the real Go compiler
+// against the real /repo tree (overlay), with intrinsics that read their values
+// from a JSON list. Used for (a) replaying solver counterexamples and (b)
+// translator validation: random concrete assignments run natively and in the
+// engine must produce identical observation logs.
+
+import (
+	"bufio"
+	"bytes"
+	"encoding/json"
+	"fmt"
+	"os"
+	"os/exec"
+	"path/filepath"
+	"regexp"
+	"sort"
+	"strings"
+	"sync"
+	"time"
+
+	"golang.org/x/tools/go/ssa"
+)
 
 type ValidationRes struct {
 	Samples    []string `json:"samples"`
 	Runs       int      `json:"runs"`
 	Agreed     int      `json:"agreed"`
+	AssumedOut int      `json:"assumed_away"`
 	Mismatches int      `json:"mismatches"`
 	Error      string   `json:"error,omitempty"`
 }
 
-func validate(ld *loaded, spec *Spec, hs HarnessSpec, base *Base, fn *ssa.Function, cfg *RunConfig, replace map[string]*ssa.Function) *ValidationRes {
-	return &ValidationRes{}
+type nativeRun struct {
+	I       int         `json:"i"`
+	Nondets []NondetRec `json:"nondets"`
+	Log     []string    `json:"log"`
+	Failed  bool        `json:"failed"`
+	Panic   string      `json:"panic"`
+	Assumed bool        `json:"assumed"`
 }
+
+var nativeBins sync.Map // pkg path -> binary path or error string
+
+var harnessFuncRe = regexp.MustCompile(`(?m)^func (VerifH_\w+)\(\)`)
+
+// buildNative compiles a driver binary for one harness package.
+func buildNative(ld *loaded, spec *Spec, pkgPath string) (string, error) {
+	if v, ok := nativeBins.Load(pkgPath); ok {
+		if s, ok := v.(string); ok {
+			return s, nil
+		}
+		return "", v.(error)
+	}
+	rel := strings.TrimPrefix(strings.TrimPrefix(pkgPath, modPath), "/")
+	work := spec.WorkDir
+	if work == "" {
+		work = "/verif/work"
+	}
+	os.MkdirAll(work, 0755)
+	tag := strings.ReplaceAll(rel, "/", "_")
+	if tag == "" {
+		tag = "root"
+	}
+	dir := filepath.Join(work, "native_"+tag)
+	os.RemoveAll(dir)
+	os.MkdirAll(dir, 0755)
+	ov := map[string]string{}
+	var names []string
+	pkgName := ""
+	for dst, src := range ld.overlay {
+		if filepath.Dir(dst) != filepath.Join(spec.Repo, rel) && !(rel == "" && filepath.Dir(dst) == spec.Repo) {
+			// mutants and other packages' harness files are still part of the overlay
+			if !strings.HasPrefix(filepath.Base(dst), "zz_verif_") {
+				f := filepath.Join(dir, "mut_"+strings.ReplaceAll(strings.TrimPrefix(dst, spec.Repo+"/"), "/", "_"))
+				os.WriteFile(f, src, 0644)
+				ov[dst] = f
+			}
+			continue
+		}
+		if filepath.Base(dst) == "zz_verif_intrinsics.go" {
+			continue
+		}
+		if !strings.HasPrefix(filepath.Base(dst), "zz_verif_") {
+			f := filepath.Join(dir, "mut_"+filepath.Base(dst))
+			os.WriteFile(f, src, 0644)
+			ov[dst] = f
+			continue
+		}
+		f := filepath.Join(dir, filepath.Base(dst))
+		os.WriteFile(f, src, 0644)
+		ov[dst] = f
+		if m := regexp.MustCompile(`(?m)^package\s+(\w+)`).FindSubmatch(src); m != nil {
+			pkgName = string(m[1])
+		}
+		if bytes.Contains(src, []byte("//verif:replace")) {
+			// harnesses with environment replacements are not compiled natively:
+			// strip the file from the native build
+			delete(ov, dst)
+			continue
+		}
+		for _, m := range harnessFuncRe.FindAllSubmatch(src, -1) {
+			names = append(names, string(m[1]))
+		}
+	}
+	sort.Strings(names)
+	var reg strings.Builder
+	for _, n := range names {
+		fmt.Fprintf(&reg, "\t%q: %s,\n", n, n)
+	}
+	nsrc := strings.Replace(nativeIntrinsics, "package PKG", "package "+pkgName, 1)
+	nsrc = strings.Replace(nsrc, "//HARNESSES//", reg.String(), 1)
+	nf := filepath.Join(dir, "zz_verif_native.go")
+	os.WriteFile(nf, []byte(nsrc), 0644)
+	ov[filepath.Join(spec.Repo, rel, "zz_verif_native.go")] = nf
+	mainDir := filepath.Join(spec.Repo, "internal", "zzverifmain_"+tag)
+	mf := filepath.Join(dir, "main.go")
+	os.WriteFile(mf, []byte(fmt.Sprintf("package main\n\nimport p %q\n\nfunc main() { p.VerifNativeMain() }\n", pkgPath)), 0644)
+	ov[filepath.Join(mainDir, "main.go")] = mf
+	ovj, _ := json.Marshal(map[string]interface{}{"Replace": ov})
+	ovf := filepath.Join(dir, "overlay.json")
+	os.WriteFile(ovf, ovj, 0644)
+	bin := filepath.Join(dir, "driver")
+	cmd := exec.Command("go", "build", "-tags=purego,verif", "-overlay", ovf, "-o", bin, "./"+filepath.Join("internal", "zzverifmain_"+tag))
+	cmd.Dir = spec.Repo
+	cmd.Env = append(os.Environ(), "GOFLAGS=-mod=mod", "GOPROXY=off")
+	out, err := cmd.CombinedOutput()
+	if err != nil {
+		e := fmt.Errorf("native build failed: %v\n%s", err, out)
+		nativeBins.Store(pkgPath, e)
+		return "", e
+	}
+	nativeBins.Store(pkgPath, bin)
+	return bin, nil
+}
+
+func runNative(bin string, env []string, timeout time.Duration) ([]nativeRun, string, error) {
+	cmd := exec.Command(bin)
+	cmd.Env = append(os.Environ(), env...)
+	var out, errb bytes.Buffer
+	cmd.Stdout = &out
+	cmd.Stderr = &errb
+	if err := cmd.Start(); err != nil {
+		return nil, "", err
+	}
+	done := make(chan error, 1)
+	go func() { done <- cmd.Wait() }()
+	var werr error
+	timedOut := false
+	select {
+	case werr = <-done:
+	case <-time.After(timeout):
+		cmd.Process.Kill()
+		<-done
+		timedOut = true
+	}
+	var runs []nativeRun
+	sc := bufio.NewScanner(&out)
+	sc.Buffer(make([]byte, 1<<20), 1<<26)
+	for sc.Scan() {
+		line := sc.Text()
+		if strings.HasPrefix(line, "VERIF-RUN ") {
+			var r nativeRun
+			if json.Unmarshal([]byte(line[10:]), &r) == nil {
+				runs = append(runs, r)
+			}
+		}
+	}
+	if timedOut {
+		return runs, errb.String(), fmt.Errorf("native run timed out after %s", timeout)
+	}
+	if werr != nil && len(runs) == 0 {
+		return runs, errb.String(), fmt.Errorf("native run failed: %v: %s", werr, errb.String())
+	}
+	return runs, errb.String(), nil
+}
+
+func validate(ld *loaded, spec *Spec, hs HarnessSpec, base *Base, fn *ssa.Function, cfg *RunConfig, replace map[string]*ssa.Function) *ValidationRes {
+	vr := &ValidationRes{}
+	bin, err := buildNative(ld, spec, hs.Pkg)
+	if err != nil {
+		vr.Error = err.Error()
+		return vr
+	}
+	runs, _, err := runNative(bin, []string{
+		"VERIF_MODE=random", "VERIF_HARNESS=" + hs.Func,
+		fmt.Sprintf("VERIF_N=%d", hs.Validate), fmt.Sprintf("VERIF_SEED=%d", spec.Seed), fmt.Sprintf("VERIF_TIER=%d", spec.Tier),
+	}, 120*time.Second)
+	if err != nil {
+		vr.Error = err.Error()
+		return vr
+	}
+	for _, r := range runs {
+		vr.Runs++
+		elog, eerr := runConcrete(ld.prog, base, fn, cfg, replace, r.Nondets)
+		if eerr != "" {
+			vr.Mismatches++
+			if len(vr.Samples) < 3 {
+				vr.Samples = append(vr.Samples, fmt.Sprintf("engine error on native sample %d: %s", r.I, eerr))
+			}
+			continue
+		}
+		if r.Assumed {
+			vr.AssumedOut++
+		}
+		if strings.Join(elog, "\n") != strings.Join(r.Log, "\n") {
+			vr.Mismatches++
+			if len(vr.Samples) < 3 {
+				nd, _ := json.Marshal(r.Nondets)
+				vr.Samples = append(vr.Samples, fmt.Sprintf("MISMATCH inputs=%s native=%v engine=%v", nd, r.Log, elog))
+			}
+			continue
+		}
+		vr.Agreed++
+		if len(vr.Samples) < 2 && !r.Assumed {
+			nd, _ := json.Marshal(r.Nondets)
+			s := fmt.Sprintf("inputs=%s log=%v", nd, r.Log)
+			if len(s) > 600 {
+				s = s[:600] + "…"
+			}
+			vr.Samples = append(vr.Samples, s)
+		}
+	}
+	if vr.Runs == 0 {
+		vr.Error = "native driver produced no runs"
+	}
+	return vr
+}
+
+// replayNative runs one counterexample natively; returns whether the failure reproduced.
+func replayNative(ld *loaded, spec *Spec, hs HarnessSpec, v *Violation, path string) (bool, string) {
+	bin, err := buildNative(ld, spec, hs.Pkg)
+	if err != nil {
+		return false, err.Error()
+	}
+	js, _ := json.MarshalIndent(map[string]interface{}{"pkg": hs.Pkg, "harness": hs.Func, "kind": v.Kind, "msg": v.Msg, "where": v.Where, "nondets": v.Nondets, "tier": spec.Tier}, "", " ")
+	os.MkdirAll(filepath.Dir(path), 0755)
+	os.WriteFile(path, js, 0644)
+	runs, stderr, err := runNative(bin, []string{"VERIF_MODE=replay", "VERIF_HARNESS=" + hs.Func, "VERIF_INPUT=" + path, fmt.Sprintf("VERIF_TIER=%d", spec.Tier)}, 60*time.Second)
+	if err != nil {
+		if strings.Contains(err.Error(), "timed out") {
+			return v.Kind == "nontermination", "native run did not terminate"
+		}
+		return false, err.Error() + stderr
+	}
+	if len(runs) == 0 {
+		return false, "no native result"
+	}
+	r := runs[0]
+	switch v.Kind {
+	case "panic":
+		return r.Panic != "", "native panic: " + r.Panic
+	default:
+		for _, l := range r.Log {
+			if l == "assert:"+v.Msg+"=false" {
+				return true, "native assertion failed: " + v.Msg
+			}
+		}
+		if r.Panic != "" {
+			return true, "native panic instead of assertion failure: " + r.Panic
+		}
+		return false, fmt.Sprintf("native run passed (log %v)", r.Log)
+	}
+}
+
+const nativeIntrinsics = `//go:build verif
+
+package PKG
+
+import (
+	"encoding/json"
+	"fmt"
+	"math"
+	"math/rand"
+	"os"
+	"strconv"
+	"unsafe"
+)
+
+type vRec struct {
+	Tag  string ` + "`json:\"tag\"`" + `
+	Kind string ` + "`json:\"kind\"`" + `
+	W    int    ` + "`json:\"w\"`" + `
+	Val  uint64 ` + "`json:\"val\"`" + `
+}
+
+type vAssumeFail struct{}
+
+var vSt struct {
+	random bool
+	in     []vRec
+	at     int
+	rng    *rand.Rand
+	out    []vRec
+	log    []string
+	tier   int
+	failed bool
+}
+
+var vHarnesses = map[string]func(){
+//HARNESSES//
+}
+
+func vDraw(tag, kind string, w int) uint64 {
+	if vSt.random {
+		var v uint64
+		switch vSt.rng.Intn(8) {
+		case 0:
+			v = 0
+		case 1:
+			v = 1
+		case 2:
+			v = ^uint64(0)
+		case 3:
+			v = uint64(1) << uint(w-1)
+		case 4:
+			v = uint64(1)<<uint(w-1) - 1
+		case 5:
+			v = uint64(vSt.rng.Intn(4))
+		default:
+			v = vSt.rng.Uint64()
+		}
+		if w < 64 {
+			v &= uint64(1)<<uint(w) - 1
+		}
+		if kind == "bool" {
+			v &= 1
+		}
+		vSt.out = append(vSt.out, vRec{tag, kind, w, v})
+		return v
+	}
+	if vSt.at >= len(vSt.in) {
+		panic("verif: ran out of replay values at " + tag)
+	}
+	r := vSt.in[vSt.at]
+	vSt.at++
+	if r.Tag != tag || r.Kind != kind {
+		panic(fmt.Sprintf("verif: replay mismatch: have %s/%s want %s/%s", r.Tag, r.Kind, tag, kind))
+	}
+	vSt.out = append(vSt.out, r)
+	return r.Val
+}
+
+func vBool(tag string) bool   { return vDraw(tag, "bool", 8) == 1 }
+func vU8(tag string) uint8    { return uint8(vDraw(tag, "U8", 8)) }
+func vU16(tag string) uint16  { return uint16(vDraw(tag, "U16", 16)) }
+func vU32(tag string) uint32  { return uint32(vDraw(tag, "U32", 32)) }
+func vU64(tag string) uint64  { return vDraw(tag, "U64", 64) }
+func vI8(tag string) int8     { return int8(vDraw(tag, "I8", 8)) }
+func vI16(tag string) int16   { return int16(vDraw(tag, "I16", 16)) }
+func vI32(tag string) int32   { return int32(vDraw(tag, "I32", 32)) }
+func vI64(tag string) int64   { return int64(vDraw(tag, "I64", 64)) }
+func vInt(tag string) int     { return int(vDraw(tag, "Int", 64)) }
+func vF32(tag string) float32 { return math.Float32frombits(uint32(vDraw(tag, "F32", 32))) }
+func vF64(tag string) float64 { return math.Float64frombits(vDraw(tag, "F64", 64)) }
+func vBytes(tag string, n int) []byte {
+	b := make([]byte, n)
+	for i := range b {
+		b[i] = uint8(vDraw(tag+"["+strconv.Itoa(i)+"]", "U8", 8))
+	}
+	return b
+}
+func vString(tag string, n int) string { return string(vBytes(tag, n)) }
+func vHavoc(tag string, b []byte) {
+	for i := range b {
+		b[i] = uint8(vDraw(tag+"["+strconv.Itoa(i)+"]", "U8", 8))
+	}
+}
+func vChoose(tag string, lo, hi int) int {
+	if vSt.random {
+		if hi < lo {
+			panic(vAssumeFail{})
+		}
+		v := lo + vSt.rng.Intn(hi-lo+1)
+		vSt.out = append(vSt.out, vRec{tag, "choose", 64, uint64(v)})
+		return v
+	}
+	if vSt.at >= len(vSt.in) {
+		panic("verif: ran out of replay values at choose " + tag)
+	}
+	r := vSt.in[vSt.at]
+	vSt.at++
+	if r.Tag != tag || r.Kind != "choose" {
+		panic(fmt.Sprintf("verif: replay mismatch: have %s/%s want %s/choose", r.Tag, r.Kind, tag))
+	}
+	vSt.out = append(vSt.out, r)
+	return int(int64(r.Val))
+}
+func vTier() int { return vSt.tier }
+func vAssume(c bool) {
+	if !c {
+		vSt.log = append(vSt.log, "assume=false")
+		panic(vAssumeFail{})
+	}
+}
+func vAssert(c bool, msg string) {
+	vSt.log = append(vSt.log, fmt.Sprintf("assert:%s=%v", msg, c))
+	if !c {
+		vSt.failed = true
+	}
+}
+func vCover(tag string)   { vSt.log = append(vSt.log, "cover:"+tag) }
+func vUnwind(k int)       {}
+func vAll(c ...bool) bool {
+	for _, x := range c {
+		if !x {
+			return false
+		}
+	}
+	return true
+}
+func vAny(c ...bool) bool {
+	for _, x := range c {
+		if x {
+			return true
+		}
+	}
+	return false
+}
+func vImplies(a, b bool) bool { return !a || b }
+func vBytesEq(a, b []byte) bool { return string(a) == string(b) }
+func vObserveInt(tag string, v int64)   { vSt.log = append(vSt.log, fmt.Sprintf("%s=%d", tag, v)) }
+func vObserveBool(tag string, v bool)   { vSt.log = append(vSt.log, fmt.Sprintf("%s=%v", tag, v)) }
+func vObserveBytes(tag string, v []byte) { vSt.log = append(vSt.log, fmt.Sprintf("%s=%x", tag, v)) }
+func vTry(f func()) (panicked bool) {
+	defer func() {
+		if r := recover(); r != nil {
+			if _, ok := r.(vAssumeFail); ok {
+				panic(r)
+			}
+			panicked = true
+		}
+	}()
+	f()
+	return false
+}
+func vOverlap(a, b []byte) bool {
+	if cap(a) == 0 || cap(b) == 0 {
+		return false
+	}
+	pa := uintptr(unsafe.Pointer(unsafe.SliceData(a[:1])))
+	pb := uintptr(unsafe.Pointer(unsafe.SliceData(b[:1])))
+	return pa < pb+uintptr(cap(b)) && pb < pa+uintptr(cap(a))
+}
+
+type vResult struct {
+	I       int      ` + "`json:\"i\"`" + `
+	Nondets []vRec   ` + "`json:\"nondets\"`" + `
+	Log     []string ` + "`json:\"log\"`" + `
+	Failed  bool     ` + "`json:\"failed\"`" + `
+	Panic   string   ` + "`json:\"panic\"`" + `
+	Assumed bool     ` + "`json:\"assumed\"`" + `
+}
+
+func vRunOnce(fn func(), i int) (res vResult) {
+	vSt.out, vSt.log, vSt.failed, vSt.at = nil, nil, false, 0
+	res.I = i
+	defer func() {
+		if r := recover(); r != nil {
+			if _, ok := r.(vAssumeFail); ok {
+				res.Assumed = true
+			} else {
+				res.Panic = fmt.Sprint(r)
+				if res.Panic == "" {
+					res.Panic = "panic"
+				}
+				vSt.log = append(vSt.log, "panic")
+			}
+		}
+		res.Nondets, res.Log, res.Failed = vSt.out, vSt.log, vSt.failed
+		if res.Nondets == nil {
+			res.Nondets = []vRec{}
+		}
+		if res.Log == nil {
+			res.Log = []string{}
+		}
+	}()
+	fn()
+	return
+}
+
+// VerifNativeMain is the entry point of the native driver binary.
+func VerifNativeMain() {
+	name := os.Getenv("VERIF_HARNESS")
+	fn := vHarnesses[name]
+	if fn == nil {
+		fmt.Fprintln(os.Stderr, "unknown harness", name)
+		os.Exit(3)
+	}
+	vSt.tier, _ = strconv.Atoi(os.Getenv("VERIF_TIER"))
+	emit := func(r vResult) {
+		js, _ := json.Marshal(r)
+		fmt.Printf("VERIF-RUN %s\n", js)
+	}
+	switch os.Getenv("VERIF_MODE") {
+	case "replay":
+		b, err := os.ReadFile(os.Getenv("VERIF_INPUT"))
+		if err != nil {
+			fmt.Fprintln(os.Stderr, err)
+			os.Exit(3)
+		}
+		var in struct {
+			Nondets []vRec ` + "`json:\"nondets\"`" + `
+		}
+		if err := json.Unmarshal(b, &in); err != nil {
+			fmt.Fprintln(os.Stderr, err)
+			os.Exit(3)
+		}
+		vSt.in = in.Nondets
+		r := vRunOnce(fn, 0)
+		emit(r)
+		if r.Failed || r.Panic != "" {
+			os.Exit(1)
+		}
+	case "random":
+		n, _ := strconv.Atoi(os.Getenv("VERIF_N"))
+		seed, _ := strconv.ParseInt(os.Getenv("VERIF_SEED"), 10, 64)
+		vSt.random = true
+		for i := 0; i < n; i++ {
+			vSt.rng = rand.New(rand.NewSource(seed*1000003 + int64(i)))
+			emit(vRunOnce(fn, i))
+		}
+	}
+}
+`
